@@ -155,6 +155,32 @@ def dDotCt (env : Env) (N : Nat) (mk : MulKey) (dst : DCt) (as bs : List DCt) : 
         ofOpt (tens.bind (relinData mk N env.base2k dst.g.size)) fun cols => .ok ⟨{ dst.g with cols := cols }, m⟩
     | _, _ => .panic "model"
 
+/-- `mul_many_rec`: one input is an aligned copy, two a product, more a balanced tree whose halves go to scratch ciphertexts of
+`min effective_k − ⌈log₂ len⌉·log_delta` bits (`take_glwe`); `fuel` ≥ number of inputs -/
+def dMulManyRec (env : Env) (N : Nat) (mk : MulKey) : Nat → DCt → List DCt → Outcome DCt
+  | 0, _, _ => .panic "model"
+  | fuel + 1, dst, ins =>
+    match ins with
+    | [] => .panic "model"
+    | [x] => dMulPow2Into env N dst x 0
+    | [x, y] => dMulInto env N mk dst x y
+    | a :: b :: c :: rest =>
+      let all := a :: b :: c :: rest
+      let mid := all.length / 2
+      let left := all.take mid
+      let right := all.drop mid
+      let δ := a.md.logDelta
+      let lk := minEff (left.map DCt.ct) - ceilLog2 left.length * δ
+      let rk := minEff (right.map DCt.ct) - ceilLog2 right.length * δ
+      bind (dMulManyRec env N mk fuel (bufOfK env N dst lk) left) fun l =>
+      bind (dMulManyRec env N mk fuel (bufOfK env N dst rk) right) fun r =>
+      dMulInto env N mk dst l r
+
+/-- `ckks_mul_many(dst, inputs, tsk)` -/
+def dMulMany (env : Env) (N : Nat) (mk : MulKey) (dst : DCt) (ins : List DCt) : Outcome DCt :=
+  withMeta (mulMany env dst.ct (ins.map DCt.ct)) fun m =>
+    bind (dMulManyRec env N mk (ins.length + 1) dst ins) fun c => .ok ⟨c.g, m⟩
+
 /-- `ckks_dot_product_pt_vec_znx(dst, a, pt)` -/
 def dDotPt (env : Env) (N : Nat) (big : Bool) (dst : DCt) (as : List DCt) (pt : Pt) (pgs : List Col) : Outcome DCt :=
   withMeta (withPt env pt dst.ct (dotPtZnx env dst.ct (as.map DCt.ct) pt)) fun _ =>
@@ -221,6 +247,7 @@ inductive XOp where
   | mulAdd (sub : Bool) (d a b : Nat)
   | mulAddPt (sub : Bool) (d a : Nat) (pt : Pt) (pg : Col)
   | addMany (d : Nat) (as : List Nat)
+  | mulMany (d : Nat) (as : List Nat)
   | dotCt (d : Nat) (as bs : List Nat)
   | dotPt (d : Nat) (as : List Nat) (pt : Pt) (pgs : List Col)
   | rot (d a : Nat) (k : Int)
@@ -255,6 +282,7 @@ def xstep (env : Env) (N : Nat) (mk : MulKey) (ak : AutKeys) (pool : DPool) : XO
   | .mulAdd sub d a b => dop3 pool d a b (fun cd ca cb => dMulAddWith env N sub cd (fun t => dMulInto env N mk t ca cb))
   | .mulAddPt sub d a pt pg => dop2 pool d a (fun cd ca => dMulAddWith env N sub cd (fun t => dMulPtInto env N mk.big t ca pt pg))
   | .addMany d as => dopN pool d as (dAddMany env N)
+  | .mulMany d as => dopN pool d as (dMulMany env N mk)
   | .dotCt d as bs =>
     match pool[d]?, dgetAll pool d as, dgetAll pool d bs with
     | some cd, some xs, some ys => dput pool d (dDotCt env N mk cd xs ys)
